@@ -1,9 +1,8 @@
 """C13 registry entry."""
 PID = 'C13'
 SPEC = dict(
-    driver='c13_async',
-    extra=['ref/ref.c', 'ref/ref_sig.c', 'ref/ref_pdu.c', 'simnet.c'],
-    omit_objs=['net_tcp_async.o'],
+    drivers=[dict(driver='c13_async', extra=['ref/ref.c', 'ref/ref_sig.c', 'ref/ref_pdu.c', 'simnet.c'], omit_objs=['net_tcp_async.o'], deadline=dict(quick=900, thorough=2700), case_limit=dict(quick=600, thorough=1800)),
+             dict(driver='c13_async_http', extra=['ref/ref.c', 'ref/ref_sig.c', 'ref/ref_pdu.c', 'simnet.c'], omit_objs=['net_http_curl_async.o'], deadline=dict(quick=600, thorough=2400), case_limit=dict(quick=600, thorough=1800))],
     rule='Explicit-state search over event histories of the asynchronous signing service on the simulated TCP transport. Events: add request, run, server reply to the '
          'oldest / newest outstanding request, duplicate reply, unknown id, stale id generation of the same cache slot, bad MAC, error status, error PDU, pushed configuration, '
          'deliver 1 byte / half / all of the queued server output, peer close, refuse / keep pending the next connect, would-block / partial send, clock +1 s / + beyond all timeouts. '
@@ -16,9 +15,7 @@ SPEC = dict(
                 thorough='depth 8 (7 for cache size 3)'),
     technique='explicit-state search (DFS with replay and canonical-state de-duplication) over the real client code under a harness-owned network and clock; shadow state machine as oracle',
     level_text='All event histories up to the depth bound are explored on the real asynchronous client with every socket answer and the clock owned by the harness; revisits of a canonical state are pruned. In every state the shadow machine checks exactly-once / matched completion, that every error has an actual cause, cache-full exactness and the pending count, and a drain from every state shows that nothing is lost. This is state exploration of the protocol core with 1-3 cache slots, the regime where exhaustive search is feasible.',
-    level_note='Trusted: reference PDU model, simulated sockets, the canonical key (fields listed in state_key(); a field omitted there could only hide behaviours, never raise a false alarm). HTTP transport and id-generation wrap beyond the explored depth are covered by C07/C06 scenario checks only.',
+    level_note='Trusted: reference PDU model, simulated sockets, the canonical key (fields listed in state_key(); a field omitted there could only hide behaviours, never raise a false alarm). The HTTP transport (curl multi client) is explored by the second driver c13_async_http with its own 19-event alphabet (transfer completions: valid, reply for another outstanding request, bad MAC, status, error PDU, curl error, HTTP 500, empty, duplicated, truncated, garbage; 1-byte chunks; curl multi errors; clock) to depth 5 (thorough 7); the id-generation wrap is covered by the wrap part (264 / 300 sequential requests through one slot).',
     require_outcomes=['add:accepted', 'add:cache-full', 'returned:response', 'returned:error:service-status', 'returned:error:receive-timeout', 'returned:error:connection', 'returned:error:bad-data', 'returned:push-config'],
     assumptions=['the canonical key distinguishes all states with different futures'],
-    deadline=dict(quick=900, thorough=2700),
-    case_limit=dict(quick=600, thorough=1800),
 )
